@@ -28,15 +28,22 @@ func init() {
 		Level: "exploration",
 		Rule: "every nesting (outermost first) of context forms up to the tier's depth, the innermost body slot filled with one exit " +
 			"(fall through / return-from each visible block / return / return-from the enclosing named function / go forward and backward to each " +
-			"visible tagbody / error of four classes), the slot placed at every body position (first, middle, last; loops also on the 2nd " +
-			"iteration); trace markers before and after every slot, in every cleanup, handler, loop result form and unselected branch, and as the " +
+			"visible tagbody or prog / error of four classes), the slot placed at every body position (first, middle, last; loops also on the 2nd " +
+			"iteration; the selected clause of case/ecase/typecase/etypecase/cond; each argument place of and/or/prog1/prog2/multiple-value-prog1; " +
+			"the middle one of three cleanup forms of an unwind-protect whose protected form ends normally, signals an error, returns from a block " +
+			"around it or goes to a tag behind it); the context forms are all forms of pkg/cl, pkg/gi, pkg/clos, pkg/flavors and pkg/generic that " +
+			"evaluate a list of body forms (listed in Bound; the exclusions with reasons in newkinds.go); trace markers before and after every slot, in every cleanup, handler, loop result form and unselected branch, and as the " +
 			"value form of every return; program text is rendered by the harness writer, run through ReadString+Eval in a fresh scope, and value, " +
 			"ordered trace, condition class, mutex state (TryLock from Go) and stream state (os.File closed, from Go) are compared with ref/eval; " +
 			"a failing case is re-run on the shorter nesting [target, sub-chain below the blamed form] so that its signature names the smallest " +
 			"nesting that shows the failure; a case is non-trivial when a non-normal exit crosses at least one intervening form on the way to its target",
 		Assumptions: []string{
 			"ref/eval is the oracle (lexical targets by construction; exits as Go panics)",
-			"exits (return-from / return / go) are placed in body positions only (never in argument, test, binding-init or cleanup-form positions); errors are also placed inside cleanup forms (unwind-protect positions pe/pd/pu/pt)",
+			"exits (return-from / return / go) are placed in body positions only (never in argument, test or binding-init positions); the cleanup forms of unwind-protect are body positions (positions cn/ce/cr/cg); errors are also placed inside cleanup forms (positions pe/pd/pu/pt)",
+			"an exit that leaves a cleanup form takes the place of whatever the protected form had started (an error, a return-from, a go): the newer exit reaches its target, the error or older exit is dropped, the cleanups further out still run once each (Common Lisp 5.2; the target of the newer exit is always outside of the abandoned one); the cleanup forms behind the exit do not run",
+			"a defun is not spliced in front of the slot where every form is a test or a value (and, or, prog1, prog2, multiple-value-prog1) nor into a loop body (slip resolves the forms of a loop before the first pass; definition order is C08's subject)",
+			"the body of a flavors method has no block of its own (none is documented); the body of a method of a generic function is in a block of the function's name (Common Lisp), which return-from-function uses",
+			"(and ... (ignore-errors ...)) and friends: as a test the result of an ignore-errors that caught an error counts as nil (its documented primary value)",
 			"when a cleanup form signals an error while another error is in flight either class may surface (the trace is still demanded exactly)",
 			"the primary value of ignore-errors after it caught an error is not pinned down (wild)",
 			"the 'original condition class' of an error form is the class slip itself reports when that form is evaluated alone at top level",
@@ -47,14 +54,14 @@ func init() {
 		},
 		Enumerate: enumerate,
 		Exec:      exec,
-		Required: []string{
+		Required: append([]string{
 			"exit-crossed>=1-form", "exit-crossed>=2-forms", "cleanup-on-return", "cleanup-on-go", "cleanup-on-error",
 			"mutex-on-exit-path", "stream-on-exit-path", "go-backward", "go-forward", "return-shadowed-block",
 			"error-handled", "error-unhandled", "exit-on-later-iteration", "exit-through-function", "cleanup-nested>=2",
 			"mutex-checked", "stream-checked", "nontrivial-passed",
 			"cleanup-fails-on-normal-exit", "cleanup-fails-on-return", "cleanup-fails-on-go", "cleanup-fails-on-error",
 			"cleanup-error-handled", "cleanup-error-unhandled", "cleanup-error-through-outer-cleanup", "reentrant-exit-in-flight", "go-to-a-tag-of-a-loop-body",
-		},
+		}, requiredNew()...),
 		Bound:         bound,
 		Selftest:      selftest,
 		CaseDeadlineS: 8,
@@ -72,13 +79,15 @@ type kindInfo struct {
 var bodyPos = []string{"f", "m", "l"}
 var loopPos = []string{"f", "m", "l", "m2", "l2"}
 
-var kinds = []kindInfo{
+var oldKinds = []kindInfo{
 	{"block-a", "block", bodyPos},
 	{"block-b", "block", bodyPos},
 	{"block-nil", "block", bodyPos},
 	{"tagbody", "tagbody", bodyPos},
 	// p: two cleanup markers; pe/pd/pu/pt: the cleanup forms are [marker, ERROR of that class, marker]
-	{"unwind-protect", "unwind-protect", []string{"p", "pe", "pd", "pu", "pt"}},
+	// cn/ce/cr/cg: the SLOT is a cleanup form ([marker, SLOT, marker]) and the protected form ends normally / signals an
+	// error / returns from a block around this unwind-protect / goes to a tag after it (newkinds.go)
+	{"unwind-protect", "unwind-protect", []string{"p", "pe", "pd", "pu", "pt", "cn", "ce", "cr", "cg"}},
 	{"let", "let", bodyPos},
 	{"let*", "let*", bodyPos},
 	{"progn", "progn", bodyPos},
@@ -98,6 +107,9 @@ var kinds = []kindInfo{
 	{"with-open-file", "with-open-file", bodyPos},
 	{"tagbody-sym", "tagbody-sym", bodyPos},
 }
+
+// kinds: the alphabet of the first rounds followed by the forms added in round 6 (newkinds.go)
+var kinds = append(append([]kindInfo(nil), oldKinds...), newKinds...)
 
 var kindByName = func() map[string]*kindInfo {
 	m := map[string]*kindInfo{}
@@ -139,15 +151,42 @@ type program struct {
 
 var errorExits = []string{"err-error", "err-div", "err-unbound", "err-type"}
 
-func isLoop(k *kindInfo) bool { return k.name == "dolist" || k.name == "dotimes" || k.name == "do" }
+func isLoop(k *kindInfo) bool {
+	switch k.name {
+	case "dolist", "dotimes", "do", "do*", "loop", "dovector", "do-symbols", "do-external-symbols":
+		return true
+	}
+	return false
+}
+func isProg(k *kindInfo) bool { return k.name == "prog" || k.name == "prog*" }
+
+// isNilBlock: the forms (return) leaves.
+func isNilBlock(k *kindInfo) bool { return k.name == "block-nil" || isLoop(k) || isProg(k) }
 func isTagbody(k *kindInfo) bool {
-	return k.name == "tagbody" || k.name == "tagbody-sym"
+	return k.name == "tagbody" || k.name == "tagbody-sym" || isProg(k)
+}
+
+// isBoundary: function bodies defined at top level (outer blocks and tags are not visible inside).
+func isBoundary(k *kindInfo) bool {
+	switch k.name {
+	case "defun", "flavor-method", "whopper", "generic-method":
+		return true
+	}
+	return false
+}
+
+// hasFnBlock: function bodies that are in a block of the function's name.
+func hasFnBlock(k *kindInfo) bool {
+	return k.name == "defun" || k.name == "defun-in" || k.name == "generic-method"
 }
 
 // cleanupErrors maps the position of an unwind-protect to the error exit its cleanup signals.
 var cleanupErrors = map[string]string{"pe": "err-error", "pd": "err-div", "pu": "err-unbound", "pt": "err-type"}
 
-func failingCleanup(c ctx) bool { return c.kind.name == "unwind-protect" && c.pos != "p" }
+func failingCleanup(c ctx) bool { return c.kind.name == "unwind-protect" && cleanupErrors[c.pos] != "" }
+
+// cleanupSlot: the slot of this unwind-protect is one of its cleanup forms.
+func cleanupSlot(c ctx) bool { return c.kind.name == "unwind-protect" && c.pos[0] == 'c' }
 
 func isHandler(k *kindInfo) bool { return k.name == "ignore-errors" || k.name == "recover" }
 
@@ -157,6 +196,11 @@ func isHandler(k *kindInfo) bool { return k.name == "ignore-errors" || k.name ==
 // its target, else the innermost one around the target) signals an error that
 // replaces the exit and travels to the nearest handler above it.
 func effectiveTarget(p *program) (idx int, sig string, cleanupErr bool) {
+	for _, c := range p.ctxs {
+		if cleanupSlot(c) {
+			return flowTarget(p)
+		}
+	}
 	idx, sig = target(p)
 	first := -1
 	for i := len(p.ctxs) - 1; 0 <= i; i-- {
@@ -189,7 +233,7 @@ func effectiveTarget(p *program) (idx int, sig string, cleanupErr bool) {
 // boundary returns the index of the innermost defun (lexical boundary), -1 if none.
 func boundary(ctxs []ctx) int {
 	for i := len(ctxs) - 1; 0 <= i; i-- {
-		if ctxs[i].kind.name == "defun" {
+		if isBoundary(ctxs[i].kind) {
 			return i
 		}
 	}
@@ -200,7 +244,7 @@ func boundary(ctxs []ctx) int {
 func fnIndex(ctxs []ctx) int {
 	b := boundary(ctxs)
 	for i := len(ctxs) - 1; 0 <= i && b <= i; i-- {
-		if n := ctxs[i].kind.name; n == "defun" || n == "defun-in" {
+		if hasFnBlock(ctxs[i].kind) {
 			return i
 		}
 	}
@@ -220,6 +264,9 @@ func validNesting(ctxs []ctx) bool {
 		if par.pos != "f" && par.pos != "m" && par.pos != "l" {
 			return false
 		}
+		if noSplice[par.kind.name] {
+			return false // every form of these is a value or a test: no place for the definition
+		}
 	}
 	return true
 }
@@ -235,7 +282,7 @@ func validExits(ctxs []ctx, errs []string) (out []string) {
 			seenA = true
 		case n == "block-b" && !seenB:
 			seenB = true
-		case (n == "block-nil" || isLoop(ctxs[i].kind)) && !seenNil:
+		case isNilBlock(ctxs[i].kind) && !seenNil:
 			seenNil = true
 		}
 	}
@@ -281,7 +328,7 @@ func target(p *program) (idx int, sig string) {
 	case p.exit == "rf-b":
 		return find(func(k *kindInfo) bool { return k.name == "block-b" }, b), "return-from"
 	case p.exit == "ret":
-		return find(func(k *kindInfo) bool { return k.name == "block-nil" || isLoop(k) }, b), "return"
+		return find(isNilBlock, b), "return"
 	case p.exit == "rf-fn":
 		if fi := fnIndex(p.ctxs); 0 <= fi {
 			return fi, "return-from-fn"
@@ -368,21 +415,50 @@ func parseSpec(spec string) (*program, error) {
 // ---------------------------------------------------------------- enumeration
 
 type tierCfg struct {
-	fullDepth   int      // every position at every level
-	innerDepth  int      // up to this depth: outer levels at the canonical position, innermost level at every position
-	spineDepth  int      // up to this depth: every level at the canonical position, pairwise different kinds
-	deepErrs    []string // error classes used beyond fullDepth
-	spineKinds  []string // kinds used in spines ("" = all)
-	description string
+	// chains of the kinds of the first rounds (oldKinds, unwind-protect without the cleanup-slot positions)
+	fullDepth  int      // every position at every level
+	innerDepth int      // up to this depth: outer levels at the canonical position, innermost level at every position
+	spineDepth int      // up to this depth: every level at the canonical position, pairwise different kinds
+	deepErrs   []string // error classes used beyond fullDepth
+	spineKinds []string // kinds used in spines ("" = all)
+	// chains that hold at least one of the kinds of newkinds.go or an unwind-protect with the slot in a cleanup form
+	newFullDepth    int      // every position at every level
+	newInnerDepth   int      // outer levels canonical, innermost level at every position
+	newInnerEnders  bool     // ... and the outermost level is a form that can end a transfer (ender)
+	newInnerErrs    []string // error classes used there
+	newInnerReact   bool     // ... only where a level reacts to an error (unwind-protect, handler, with-mutex-lock, with-open-file)
+	newSpineDepth   int      // pairwise different kinds, canonical positions, the two outermost levels enders
+	outerCleanupPos []string // positions of an unwind-protect at an outer level beyond the complete depths
 }
 
 func cfg(tier string) tierCfg {
 	if tier == engine.Thorough {
 		return tierCfg{fullDepth: 3, innerDepth: 4, spineDepth: 5, deepErrs: []string{"err-error", "err-div"},
 			spineKinds: []string{"block-a", "block-nil", "tagbody", "unwind-protect", "let", "when", "cond", "dolist", "do", "defun", "lambda",
-				"with-mutex-lock", "ignore-errors", "recover", "with-open-file"}}
+				"with-mutex-lock", "ignore-errors", "recover", "with-open-file"},
+			newFullDepth: 2, newInnerDepth: 3, newInnerErrs: errorExits, newSpineDepth: 4, outerCleanupPos: []string{"p", "pe", "cn", "ce"}}
 	}
-	return tierCfg{fullDepth: 2, innerDepth: 3, spineDepth: 0, deepErrs: []string{"err-error", "err-div"}}
+	return tierCfg{fullDepth: 2, innerDepth: 3, spineDepth: 0, deepErrs: []string{"err-error", "err-div"},
+		newFullDepth: 2, newInnerDepth: 3, newInnerEnders: true, newInnerErrs: []string{"err-error"}, newInnerReact: true, outerCleanupPos: []string{"p", "pe"}}
+}
+
+// isEnder: a form that can end a transfer of control (the target of a return-from, return or go, a function body,
+// a handler of errors) or an unwind-protect. The kinds that are not enders merely pass an exit on.
+func isEnder(k *kindInfo) bool {
+	return strings.HasPrefix(k.name, "block-") || isTagbody(k) || isLoop(k) || isBoundary(k) || hasFnBlock(k) || isHandler(k) ||
+		k.name == "lambda" || k.name == "unwind-protect"
+}
+
+// reactsToError: one of the levels has something to do when an error passes (a cleanup, a handler, a mutex or a stream
+// to release); through every other form an error is a Go panic that the form never sees.
+func reactsToError(ctxs []ctx) bool {
+	for _, c := range ctxs {
+		switch c.kind.name {
+		case "unwind-protect", "ignore-errors", "recover", "with-mutex-lock", "with-open-file":
+			return true
+		}
+	}
+	return false
 }
 
 func enumerate(tier string, emit func(string)) {
@@ -397,11 +473,23 @@ func enumPrograms(tier string, emit func(*program)) {
 	for _, e := range validExits(nil, errorExits) {
 		emit(&program{exit: e})
 	}
-	var rec func(ctxs []ctx, depth int, mode string)
-	rec = func(ctxs []ctx, depth int, mode string) {
+	// rec enumerates the chains of one depth in one mode; withNew = false: the alphabet of the first rounds only,
+	// withNew = true: all kinds and positions, keeping the chains that hold something new
+	var rec func(ctxs []ctx, depth int, mode string, withNew bool)
+	rec = func(ctxs []ctx, depth int, mode string, withNew bool) {
 		if len(ctxs) == depth {
+			if withNew && !hasNewKind(ctxs) {
+				return
+			}
 			errs := errorExits
-			if mode != "full" {
+			switch {
+			case mode == "full":
+			case withNew && mode == "inner":
+				errs = c.newInnerErrs
+				if c.newInnerReact && !reactsToError(ctxs) {
+					errs = nil
+				}
+			default:
 				errs = c.deepErrs
 			}
 			for _, e := range validExits(ctxs, errs) {
@@ -416,57 +504,80 @@ func enumPrograms(tier string, emit func(*program)) {
 			if k.name == "tagbody-sym" && mode != "full" {
 				continue // symbol tags: only in the complete depths (see S9 note in judge)
 			}
+			if !withNew && newKindSet[k.name] {
+				continue
+			}
+			outer := outerPositions(k)
+			if withNew && k.name == "unwind-protect" {
+				outer = c.outerCleanupPos
+			}
 			switch mode {
 			case "inner":
 				if level < depth-1 {
-					positions = outerPositions(k)
+					positions = outer
+				}
+				if withNew && c.newInnerEnders && level == 0 && 1 < depth && !isEnder(k) {
+					continue
 				}
 			case "spine":
-				positions = outerPositions(k)
-				use := len(c.spineKinds) == 0
+				positions = outer
+				use := withNew || len(c.spineKinds) == 0
 				for _, n := range c.spineKinds {
 					use = use || n == k.name
 				}
 				for _, prev := range ctxs {
 					use = use && prev.kind != k
 				}
+				if withNew && level < 2 && !isEnder(k) {
+					use = false
+				}
 				if !use {
 					continue
 				}
 			}
 			for _, ps := range positions {
+				if !withNew && ps[0] == 'c' && k.name == "unwind-protect" {
+					continue
+				}
 				next := append(ctxs, ctx{k, ps})
 				if validNesting(next) {
-					rec(next, depth, mode)
+					rec(next, depth, mode, withNew)
 				}
 			}
 		}
 	}
 	// simplest first: by depth; the engine drops specs already emitted by a wider mode
-	maxDepth := c.fullDepth
-	if maxDepth < c.innerDepth {
-		maxDepth = c.innerDepth
-	}
-	if maxDepth < c.spineDepth {
-		maxDepth = c.spineDepth
+	maxDepth := 0
+	for _, d := range []int{c.fullDepth, c.innerDepth, c.spineDepth, c.newFullDepth, c.newInnerDepth, c.newSpineDepth} {
+		if maxDepth < d {
+			maxDepth = d
+		}
 	}
 	for d := 1; d <= maxDepth; d++ {
 		switch {
 		case d <= c.fullDepth:
-			rec(nil, d, "full")
+			rec(nil, d, "full", false)
 		case d <= c.innerDepth:
-			rec(nil, d, "inner")
+			rec(nil, d, "inner", false)
 		case d <= c.spineDepth:
-			rec(nil, d, "spine")
+			rec(nil, d, "spine", false)
+		}
+		switch {
+		case d <= c.newFullDepth:
+			rec(nil, d, "full", true)
+		case d <= c.newInnerDepth:
+			rec(nil, d, "inner", true)
+		case d <= c.newSpineDepth:
+			rec(nil, d, "spine", true)
 		}
 	}
 }
 
 func bound(tier string) string {
 	c := cfg(tier)
-	s := fmt.Sprintf("%d context kinds (%s); complete to nesting depth %d with the slot at every position of every level and all exit kinds "+
+	s := fmt.Sprintf("%d context kinds of the first rounds (%s): complete to nesting depth %d with the slot at every position of every level and all exit kinds "+
 		"(normal, return-from a/b, return, return-from function, go forward/backward to every visible tagbody, 4 error classes); every unwind-protect with its plain cleanup (two markers) and with a cleanup [marker, error of each of the 4 classes, marker]",
-		len(kinds), kindNames(), c.fullDepth)
+		len(oldKinds), kindNamesOf(oldKinds), c.fullDepth)
 	if c.fullDepth+1 == c.innerDepth {
 		s += fmt.Sprintf("; depth %d with the outer levels at their canonical position (middle / protected form with plain cleanup and with a cleanup that signals (error ..) / then-branch), the innermost level at every position, error classes %v; symbol-tag tagbodies only in the complete depths",
 			c.innerDepth, c.deepErrs)
@@ -478,16 +589,35 @@ func bound(tier string) string {
 		s += fmt.Sprintf("; depth %d..%d for spines of pairwise different kinds out of %d kinds, all levels at the canonical position",
 			c.innerDepth+1, c.spineDepth, len(c.spineKinds))
 	}
+	s += fmt.Sprintf(". Nestings that hold at least one of the %d further kinds (%s) or an unwind-protect with the slot as the middle one of three cleanup forms "+
+		"(protected form ends normally / signals an error / returns from a block around the unwind-protect / goes to a tag behind it), over all %d kinds: complete to depth %d",
+		len(newKinds), kindNamesOf(newKinds), len(kinds), c.newFullDepth)
+	if c.newFullDepth < c.newInnerDepth {
+		s += fmt.Sprintf("; depth %d with the outer levels at their canonical position (unwind-protect: %v), the innermost level at every position, error classes %v",
+			c.newInnerDepth, c.outerCleanupPos, c.newInnerErrs)
+		if c.newInnerReact {
+			s += " (errors only in nestings with an unwind-protect, a handler, with-mutex-lock or with-open-file)"
+		}
+		if c.newInnerEnders {
+			s += ", the outermost level one of the forms that can end a transfer (block, tagbody, prog, loop, function or method body, handler) or an unwind-protect"
+		}
+	}
+	if c.newInnerDepth < c.newSpineDepth {
+		s += fmt.Sprintf("; depth %d..%d for spines of pairwise different kinds, canonical positions, the two outermost levels forms that can end a transfer or unwind-protect, error classes %v",
+			c.newInnerDepth+1, c.newSpineDepth, c.deepErrs)
+	}
 	return s
 }
 
-func kindNames() string {
+func kindNamesOf(l []kindInfo) string {
 	var n []string
-	for _, k := range kinds {
+	for _, k := range l {
 		n = append(n, k.name)
 	}
 	return strings.Join(n, " ")
 }
+
+func kindNames() string { return kindNamesOf(kinds) }
 
 // ---------------------------------------------------------------- program construction
 
@@ -506,9 +636,15 @@ type built struct {
 	usesFile bool
 	path     string
 	unique   string
+
+	flavors     []string // flavors defined by the program (removed afterwards)
+	usesGeneric bool
 }
 
 const exitValue = 9001
+
+// stepBudget: function evaluations granted to one program on slip.
+const stepBudget = 20000
 
 func (b *built) mark(owner int, role string, withValue bool) eval.Node {
 	id := len(b.markers)
@@ -623,16 +759,12 @@ func (b *built) body(level int) []eval.Node {
 		pos = pos[:1]
 	}
 	if pos != "f" {
-		stmts = append(stmts, b.mark(level, "pre", false))
+		stmts = append(stmts, b.mark(level, "pre", preValued[c.kind.name]))
 	}
 	if later {
-		second := 1
-		if c.kind.name == "dolist" {
-			second = 2
-		}
 		// build the slot before the skip marker so that ids follow the text
 		slot := b.build(level + 1)
-		stmts = append(stmts, eval.L(eval.Sym("if"), eval.L(eval.Sym("eql"), lv("i", level), eval.Int(second)), slot, b.mark(level, "skip", true)))
+		stmts = append(stmts, eval.L(eval.Sym("if"), laterTest(c.kind, level), slot, b.mark(level, "skip", true)))
 	} else {
 		slot := b.build(level + 1)
 		stmts = append(stmts, b.pending...) // a defun-in child: its definition goes right before the call
@@ -670,6 +802,9 @@ func (b *built) build(level int) eval.Node {
 		stmts = append(stmts, tagOf(c.kind, level, true), b.mark(level, "tail", false))
 		return form("tagbody", stmts...)
 	case "unwind-protect":
+		if cleanupSlot(c) {
+			return b.buildCleanupSlot(level)
+		}
 		slot := b.build(level + 1)
 		if ee, fails := cleanupErrors[c.pos]; fails {
 			return form("unwind-protect", slot, b.mark(level, "cleanup1", false), errorForm(ee), b.mark(level, "cleanup2", false))
@@ -738,6 +873,9 @@ func (b *built) build(level int) eval.Node {
 		keep := eval.L(eval.Sym("setq"), lv("keep", level), lv("fs", level))
 		return form("with-open-file", append([]eval.Node{head, keep}, b.body(level)...)...)
 	}
+	if n := b.buildNew(level); n != nil {
+		return n
+	}
 	panic("unknown kind " + c.kind.name)
 }
 
@@ -780,6 +918,7 @@ func runRef(b *built, m eval.Mutations) expectation {
 		mx[i] = in.NewMutex(string(lv("mx", i)))
 		in.SetGlobal(string(lv("mx", i)), mx[i])
 	}
+	setupRef(in, b.p)
 	ex := expectation{out: in.Run(b.forms), mutexHeld: make([]bool, n)}
 	for i := range mx {
 		ex.mutexHeld[i] = mx[i].Locked
@@ -871,7 +1010,7 @@ func execProgram(p *program, reduce, resources bool) (res engine.Result) {
 				res.Hit("mutex-on-exit-path")
 			case "with-open-file":
 				res.Hit("stream-on-exit-path")
-			case "defun", "lambda", "defun-in":
+			case "defun", "lambda", "defun-in", "flavor-method", "whopper", "generic-method":
 				res.Hit("exit-through-function")
 			}
 			if strings.HasSuffix(p.ctxs[i].pos, "2") {
@@ -881,6 +1020,7 @@ func execProgram(p *program, reduce, resources bool) (res engine.Result) {
 		if 2 <= ups {
 			res.Hit("cleanup-nested>=2")
 		}
+		countNew(&res, p, tgt, exitSig)
 		switch exitSig {
 		case "go-forward":
 			res.Hit("go-forward")
@@ -896,7 +1036,7 @@ func execProgram(p *program, reduce, resources bool) (res engine.Result) {
 			for i := tgt - 1; 0 <= i; i-- {
 				same := p.ctxs[i].kind.name == p.ctxs[tgt].kind.name
 				if exitSig == "return" {
-					same = p.ctxs[i].kind.name == "block-nil" || isLoop(p.ctxs[i].kind)
+					same = isNilBlock(p.ctxs[i].kind)
 				}
 				if same {
 					res.Hit("return-shadowed-block")
@@ -961,6 +1101,18 @@ func execProgram(p *program, reduce, resources bool) (res engine.Result) {
 		scope.Let(slip.Symbol(lv("keep", i)), nil)
 		scope.Let(slip.Symbol(lv("mx", i)), (*gi.Mutex)(&sync.Mutex{}))
 	}
+	if problem := setupSlip(scope, p); problem != "" {
+		res.Fail("harness:environment", problem)
+		return
+	}
+	// a program that does not come to an end (an exit dropped inside a loop) is stopped by a step budget: the
+	// reference needs a few hundred evaluations for the largest program of the thorough tier
+	steps := 0
+	scope.InterruptCheck = func() {
+		if steps++; stepBudget < steps {
+			panic(fmt.Sprintf("c07: more than %d evaluations", stepBudget))
+		}
+	}
 	if b.usesFile {
 		_ = os.MkdirAll(scratch(), 0o755)
 		if err := os.WriteFile(b.path, []byte("c07\n"), 0o644); err != nil {
@@ -972,6 +1124,9 @@ func execProgram(p *program, reduce, resources bool) (res engine.Result) {
 	defer func() {
 		for _, name := range b.fnNames {
 			_, _ = lisp.Eval("(fmakunbound '" + name + ")")
+		}
+		for _, name := range b.flavors {
+			_, _ = lisp.Eval("(undefflavor '" + name + ")")
 		}
 	}()
 
@@ -1107,9 +1262,9 @@ type observation struct {
 
 func (o *observation) digest() string {
 	if o.err != nil {
-		return "err:" + o.err.Class + "|" + strings.Join(o.trace, ",")
+		return "err:" + o.err.Class + "|" + shortTrace(o.trace)
 	}
-	return lisp.Show(o.val) + "|" + strings.Join(o.trace, ",")
+	return lisp.Show(o.val) + "|" + shortTrace(o.trace)
 }
 
 func targetName(p *program, tgt int) string {
@@ -1232,8 +1387,8 @@ func judge(res *engine.Result, b *built, ex *expectation, o *observation, tgt in
 		}
 		res.Fail(prefix+"kind="+kind+rest, detail)
 	}
-	expTrace := strings.Join(ex.out.Trace, ",")
-	obsTrace := strings.Join(o.trace, ",")
+	expTrace := shortTrace(ex.out.Trace)
+	obsTrace := shortTrace(o.trace)
 	expVal := eval.Show(ex.out.Value)
 	detail := func(what string) string {
 		expE, obsE := "-", "-"
@@ -1336,13 +1491,21 @@ func judge(res *engine.Result, b *built, ex *expectation, o *observation, tgt in
 		return
 	}
 	// same trace, both returned: value
-	if ex.out.Value == eval.Wild {
+	if eval.IsWild(ex.out.Value) {
 		return
 	}
 	if got := lisp.Show(o.val); got != expVal {
 		fail("value", "want="+valueClass(b, expVal, tgt)+" got="+valueClass(b, got, tgt), detail("wrong value"))
 	}
 	return
+}
+
+// shortTrace renders a trace for a failure detail (a runaway loop leaves thousands of entries).
+func shortTrace(t []string) string {
+	if 80 < len(t) {
+		return strings.Join(t[:80], ",") + fmt.Sprintf(",... (%d entries)", len(t))
+	}
+	return strings.Join(t, ",")
 }
 
 func oneOf(l []string, s string) bool {
@@ -1404,10 +1567,11 @@ func describeMarkers(b *built) string {
 // ---------------------------------------------------------------- self-test (S6)
 
 func selftest(tier string) (killed, total int, notes []string) {
-	mutants := []struct {
+	type mutant struct {
 		name string
 		m    eval.Mutations
-	}{
+	}
+	mutants := []mutant{
 		{"when/unless/cond bodies swallow an exit and carry on", eval.Mutations{BodyIgnoresExit: true}},
 		{"unwind-protect cleanup runs twice on an error", eval.Mutations{CleanupTwiceOnError: true}},
 		{"unwind-protect cleanup skipped when left by go", eval.Mutations{CleanupSkippedOnGo: true}},
@@ -1421,12 +1585,22 @@ func selftest(tier string) (killed, total int, notes []string) {
 		{"cleanup forms re-run when one of them fails after a normal exit / return-from / go", eval.Mutations{CleanupRerunOnCleanupError: true}},
 		{"cleanup forms after a failing one still run", eval.Mutations{CleanupContinuesAfterError: true}},
 	}
+	firstNew := len(mutants) // from here on: mutants that only show in programs holding a new kind or a cleanup slot
+	for _, k := range swallowKinds {
+		mutants = append(mutants, mutant{k + " does not pass on a return-from / return / go and carries on with its next form", eval.Mutations{SwallowIn: k}})
+	}
+	for _, k := range goDropKinds {
+		mutants = append(mutants, mutant{k + " drops a go to a tag of an enclosing tagbody", eval.Mutations{DropsGo: k}})
+	}
+	mutants = append(mutants,
+		mutant{"a return-from / return / go inside a cleanup form is discarded", eval.Mutations{CleanupExitIgnored: true}},
+		mutant{"the cleanup forms start again when one of them leaves by return-from / return / go", eval.Mutations{CleanupExitRerunsCleanup: true}})
 	total = len(mutants)
 	alive := make([]bool, total)
 	for i := range alive {
 		alive[i] = true
 	}
-	left := total
+	left, leftNew := total, total-firstNew
 	cases := 0
 	done := errors.New("done")
 	func() {
@@ -1437,16 +1611,23 @@ func selftest(tier string) (killed, total int, notes []string) {
 		}()
 		enumPrograms(tier, func(p *program) {
 			cases++
+			isNew := hasNewKind(p.ctxs)
+			if isNew && leftNew == 0 {
+				return // the mutants of the first rounds are told apart by the programs of the first rounds
+			}
 			b := buildProgram(p, "st")
 			ref := runRef(b, eval.Mutations{})
 			d := ref.digest()
 			for i, mu := range mutants {
-				if !alive[i] {
+				if !alive[i] || (firstNew <= i && !isNew) {
 					continue
 				}
 				if got := runRef(b, mu.m); got.digest() != d {
 					alive[i] = false
 					left--
+					if firstNew <= i {
+						leftNew--
+					}
 					killed++
 					notes = append(notes, fmt.Sprintf("killed: %s — first distinguishing case #%d %s", mu.name, cases, p.spec()))
 				}
